@@ -22,10 +22,19 @@
 //! canonicalised: no harness path and no timing occurs in these texts (module names are the file
 //! names given to the VM).
 //!
+//! Phase 1 evaluates every input alone on a fresh VM (this is history `fresh:r=0`).  The child writes
+//! a progress marker before and after each evaluation and carries a watchdog (CPU time of one
+//! evaluation), so an input on which the implementation dies or hangs EVEN ALONE is attributed
+//! exactly; such inputs are deterministic failures of another property (front end totality / host
+//! safety), they are excluded from phase 2 and listed in determinism.json `excluded_inputs`.  Phase 2
+//! runs the other histories over the surviving inputs; a process that dies in phase 2 on an input
+//! that evaluates alone is a finding (`nondeterministic-value:dies-only-in-some-histories`).
+//!
 //! For every input whose observations differ the parent builds a two-run minimal reproduction:
 //! it takes the exact evaluation sequence of the deviating history (written by the child), checks
 //! whether the deviation is reproducible, and delta-debugs the sequence of earlier compilations down
-//! to a minimal one (each probe in a fresh process).  The difference is keyed by its class.
+//! to a minimal one (each probe in a fresh process).  The difference is keyed by its class
+//! (`nondeterministic-<value|type|diagnostic>:<class>`, see `diff_class`).
 //!
 //! Second tie: the grouping model of coq/theories/Lang/Rename.v (`group_by_key`) against the real
 //! match compilation (vm/src/core/mod.rs compile_constructor / compile_literal): generated `match`
